@@ -231,10 +231,11 @@ PROPS = {
                     "predicates; the differential runs the merged evEnd only (= the three ops in a row, c04_tail_is_three_steps), except for "
                     "race= ops where the driver runs evConnEnd, evRearm, the racing call, evErrClose (no error event pending there). Only the "
                     "default read path is modelled (g.onRead == nil, AsyncReadInPoller off). ET edge and drain theorems assume no call precedes "
-                    "the connected callback of a DialAsync conn (c04_et_edge_counterexample_early). flush on an empty queue calls resetRead as in "
-                    "the code, a no-op in every reachable model state (c04_flush_empty_noop): a dial that connected at once (registered "
-                    "read+write, no callback pending, the case of repo fix 42b91d9) is not a state of this model nor of the hconn harness "
-                    "(its spin is C02's oracle c02-spin)",
+                    "the connected callback of a DialAsync conn (c04_et_edge_counterexample_early). A dial that connected at once (addDialer without a "
+                    "pending callback: read+write registered, isWAdded set, nothing queued) is the op registerDialNow / hconn dial=2 (state flag "
+                    "idle in the belief invariant); flush on an empty queue calls resetRead as in the code (repo fix 42b91d9): it drops that "
+                    "idle write interest (c04_flush_empty_drops_idle) and is a no-op otherwise (c04_flush_empty_noop); the dial callback of such "
+                    "a conn is an ordinary caller (hconn runs its calls right after the registration)",
             "technique": _TECH},
         "lean": ["NbioVerif.Properties.C04", srcgen.BRIDGE_CONN], "drivers": ["conndrv"], "harness": ["hconn"],
         "runs": [_run_with_real(["deliv", "closed", "wl", "wadded", "reg", "kout", "dis", "edge", "ctl", "onclose"])],
